@@ -1,7 +1,7 @@
 """C11 — an operation that raises leaves the database as it was, and still usable.
 
 Lock-step machinery with a fault-heavy operation mix.  Faulting operations, each with a generated fault position:
-insert_multiple with a non-Point at position k; insert of a non-Point; update / update_all / handle.update whose callable (time,
+insert_multiple with a non-Point, or a Point that CSV storage cannot encode (lone surrogate: the failure strikes inside the storage append), at position k; insert of a non-Point / unencodable / unserializable Point; update / update_all / handle.update whose callable (time,
 measurement, tags or fields) raises on the j-th selected point or returns an invalid value there; invalid static arguments (non-query,
 no arguments, all-falsy arguments, wrongly typed time / measurement / tags / fields / unset lists); search with a non-query; select with bad keys.
 Oracle: the call raises; contents afterwards equal the model before the call (insert_multiple: plus the k points before the offending
@@ -33,6 +33,16 @@ def hook(ls, op):
             ls.flags.add("_write_after")
         ls.flags.add("_armed")
     c06.eq_hook(ls, op)
+    if len(ls.log) and _len_observed(ls):
+        # every third history also asks each database for its size after every step (before and after the faults): whatever
+        # bookkeeping answers len() must not count an insert that raised
+        for real in ls.reals:
+            n = ls.call(real, "len", len, real.db)
+            if n != len(ls.model.points):
+                ls.fail("len-after-step", real, "len(db) = %r after %s, the model holds %d points" % (n, op[0], len(ls.model.points)))
+        ls.ctx.acc.cls("len_observed_steps")
+    if "raised_in_storage" in ls.flags:
+        ls.ctx.acc.cls("hist_has:raised_in_storage_append")
     for f in ("raised", "raised_mid", "raised_edge"):
         if f in ls.flags:
             ls.ctx.acc.cls("hist_has:" + f)
@@ -40,6 +50,11 @@ def hook(ls, op):
         ls.ctx.acc.cls("fault:" + op[0] + ":" + str(op[1]))
     if op[0] == "insert_multiple" and op[5] is not None:
         ls.ctx.acc.cls("fault:insert_multiple_bad_at_%d_of_%d" % (min(op[5], len(op[1])), len(op[1])))
+
+
+def _len_observed(ls):
+    first = ls.log[0]
+    return (len(first[1]) if len(first) > 1 and isinstance(first[1], (list, dict, str)) else len(first)) % 3 == 0
 
 
 def classify(ls, ops):
